@@ -108,7 +108,7 @@ PROPS["C14"] = {
     "title": "Rule serialisation round-trips",
     "models": lambda tier: [],
     "gens": lambda tier: [{"topic": "ser", "n": q(tier, 600, 12000)}],
-    "rules": ["den", "ser_panic", "ser_error", "reload_fails", "reload_differs", "load_paths_differ", "load_panic"],
+    "rules": ["den", "ser_panic", "ser_error", "reload_fails", "reload_differs", "load_paths_differ", "load_panic", "match_panic"],
     "chunk": 400,
 }
 
@@ -166,7 +166,7 @@ PROPS["C10"] = {
     "title": "Field paths resolve to exactly the addressed value",
     "models": lambda tier: [
         {"module": "MC_Path", "constants": {"Depth": q(tier, 1, 2), "PathLen": q(tier, 3, 2), "Dev": DEV_PATH},
-         "invariants": ["WalkIsFind", "IdealWalkIsFind", "EmptySegMissing", "Emit"], "forms": ["doc"], "workers": 8},
+         "invariants": ["WalkIsFind", "IdealWalkIsFind", "EmptySegMissing", "BadIndexMissing", "Emit"], "forms": ["doc"], "workers": 8},
         {"module": "MC_Nest", "constants": {"MaxArr": q(tier, 2, 3)},
          "invariants": ["DottedLaw", "ArrayLaw", "Emit"], "forms": ["nested_obj", "nested_arr"], "workers": 4},
     ],
